@@ -88,8 +88,30 @@ class CrashTracer:
             return self._local
         return None
 
+    def _audit(self, event, args):
+        # how files under the watched directory are opened for writing: a truncating open ('w') can only be
+        # torn into a prefix of the new text, an in-place overwrite ('r+') into new prefix + old tail
+        if not self.auditing or event != 'open':
+            return
+        try:
+            path, mode, flags = args[0], args[1], args[2]
+            path = os.fspath(path) if not isinstance(path, int) else None
+            if path is None:
+                return
+            path = os.path.abspath(path)
+            if not path.startswith(self.watch_abs):
+                return
+            if flags & (os.O_WRONLY | os.O_RDWR) and not flags & (os.O_TRUNC | os.O_APPEND):
+                self.inplace_opens.add(os.path.relpath(path, self.watch_abs))
+        except Exception:
+            pass
+
     def run(self, fn):
         """Execute fn() traced.  Returns the exception it raised or None."""
+        self.watch_abs = os.path.abspath(self.watch)
+        self.inplace_opens = set()
+        self.auditing = True
+        sys.addaudithook(self._audit)      # cannot be removed; the run's process ends soon, and it is switched off below
         self.check('<before>', force=True)
         exc = None
         old = sys.gettrace()
@@ -100,6 +122,7 @@ class CrashTracer:
             exc = e
         finally:
             sys.settrace(old)
+            self.auditing = False
         self.check('<after>', force=True)
         return exc
 
@@ -112,7 +135,7 @@ def _read(p):
         return None
 
 
-def torn_variants(a_dir, b_dir, out_root, itemsizes, tag, ino_a=None, ino_b=None):
+def torn_variants(a_dir, b_dir, out_root, itemsizes, tag, ino_a=None, ino_b=None, inplace_opens=()):
     """Directories that a torn write between state A and state B could leave.
     Yields (dir, description)."""
     names = set()
@@ -147,10 +170,12 @@ def torn_variants(a_dir, b_dir, out_root, itemsizes, tag, ino_a=None, ino_b=None
                     cuts.append((nm, c))
             if ca is not None and len(ca) < L:
                 cuts.append(('prefix_old_length', len(ca)))
-            if ca and cb and not cb.startswith(ca) and not ca.startswith(cb):
-                # the file went from old content to new content *between two line events*, without a state in
-                # which it was empty: it was overwritten in place, so a torn write leaves a prefix of the new
-                # text followed by what was there before (only then is this a reachable state)
+            if ca and cb and not cb.startswith(ca) and not ca.startswith(cb) and rel in inplace_opens:
+                # the file went from old content to new content between two line events AND was opened for
+                # writing without O_TRUNC during the operation (seen by the audit hook): it was overwritten in
+                # place, so a torn write leaves a prefix of the new text followed by what was there before.
+                # (With open(..., 'w') - also when truncation and write happen inside one source line - only
+                # prefixes are reachable, and with os.replace nothing is.)
                 diffs = [k for k in range(min(len(ca), L)) if ca[k] != cb[k]]
                 for k in sorted({diffs[0] + 1, diffs[len(diffs) // 2] + 1, diffs[-1], (diffs[0] + diffs[-1]) // 2 + 1} if diffs else set()):
                     if 0 < k < L:
@@ -201,7 +226,7 @@ class _CrashMixin:
             self.judge_one(d, legit, f'line_state:{where}', opname, outcomes)
             if si + 1 < len(states):
                 for td, desc in torn_variants(d, states[si + 1][0], tornroot, itemsizes, f's{si:03d}',
-                                              inodes, states[si + 1][3]):
+                                              inodes, states[si + 1][3], tracer.inplace_opens):
                     self.torn_states += 1
                     self.judge_one(td, legit, f'torn:{desc}', opname, outcomes)
                     shutil.rmtree(td, ignore_errors=True)
